@@ -82,7 +82,7 @@ pub struct CliOut {
 }
 
 /// run an anthem binary with `args`, optional stdin, optional environment/cwd; a generous
-/// wall-clock watchdog (AVM_CLI_TIMEOUT_S, default 120 s) kills a child that does not finish and
+/// wall-clock watchdog (AVM_CLI_TIMEOUT_S, default 60 s) kills a child that does not finish and
 /// reports it as an io error (inconclusive for the caller, never a verdict)
 pub fn run_cli(bin: &Path, args: &[&str], stdin: Option<&[u8]>, env: &[(&str, &str)], cwd: Option<&Path>) -> std::io::Result<CliOut> {
     let mut c = Command::new(bin);
@@ -94,6 +94,15 @@ pub fn run_cli(bin: &Path, args: &[&str], stdin: Option<&[u8]>, env: &[(&str, &s
         c.current_dir(d);
     }
     let mut child = c.spawn()?;
+    let pid = child.id();
+    crate::run::child_started(pid);
+    struct Done(u32);
+    impl Drop for Done {
+        fn drop(&mut self) {
+            crate::run::child_finished(self.0);
+        }
+    }
+    let _done = Done(pid);
     if let Some(data) = stdin {
         let mut si = child.stdin.take().unwrap();
         let _ = si.write_all(data);
@@ -110,7 +119,7 @@ pub fn run_cli(bin: &Path, args: &[&str], stdin: Option<&[u8]>, env: &[(&str, &s
         let _ = std::io::Read::read_to_end(&mut se, &mut b);
         b
     });
-    let limit = std::env::var("AVM_CLI_TIMEOUT_S").ok().and_then(|s| s.parse::<u64>().ok()).unwrap_or(120);
+    let limit = std::env::var("AVM_CLI_TIMEOUT_S").ok().and_then(|s| s.parse::<u64>().ok()).unwrap_or(60);
     let started = std::time::Instant::now();
     let status = loop {
         match child.try_wait()? {
